@@ -439,6 +439,35 @@ def _legal(res, cls, d):
             dtype=str(dt))
         if nm == 'jit' and canon_tree(np_tree(va)) != canon_tree(np_tree(vc)):
           V('jit-init-values', 'jit(init) values differ from init', dtype=str(dt))
+      if dt is not jnp.float32:
+        continue
+      # the same agreement under a non-default `mutable` (which collections init may create)
+      from flax import errors as _fe
+      shp = lambda t: canon_tree(jax.tree.map(lambda a: (tuple(a.shape), str(a.dtype)), t))
+      for mf in ('params', ['params', 'aux'], {'deny': 'aux'}, ['params', 'cnt', 'stats']):
+        ff = dsl.to_flax_filter(mf)
+        res['evals'] += 3
+        outs = {}
+        for nm, f in (('init', lambda: m.init(rngs, xs, mutable=ff)),
+                      ('lazy_init', lambda: m.lazy_init(rngs, spec, mutable=ff)),
+                      ('eval_shape', lambda: jax.eval_shape(
+                        lambda r, a: m.init(r, a, mutable=ff), rngs, xs))):
+          try:
+            outs[nm] = ('ok', shp(f()))
+          except _fe.LazyInitError:
+            outs[nm] = ('lazy', None)
+          except Exception as e:  # noqa
+            outs[nm] = ('raises', _kind(e))
+        for nm in ('lazy_init', 'eval_shape'):
+          if outs[nm][0] == 'lazy' and data_dep:
+            core.outcome(res, 'lazy_init-data-dependent')
+            continue
+          if outs[nm] != outs['init']:
+            V(f'shape-only-mutable:{nm}',
+              f'{nm}(mutable={mf!r}) does not agree with init(mutable={mf!r}) '
+              '(tree / shapes / dtypes, or which of them raises)', mutable=mf,
+              observed=repr(outs[nm])[:300], expected=repr(outs['init'])[:300])
+        core.outcome(res, f'shape-only-mutable:{outs["init"][0]}')
   if nontriv:
     res['nontrivial'].append(core.h(pkey))
   if not res['samples']:
